@@ -96,7 +96,9 @@ def history(tid, rng, circuit, steps, meta):
                     k = rng.choice(cz.TWOQ + (["MeasurementCNOTandReset"] if n_c else []))
                     spec = {"k": k, "r": [[d1["reg_type"], d1["reg"]], [d2["reg_type"], d2["reg"]]],
                             "c": rng.randrange(n_c) if k == "MeasurementCNOTandReset" else None}
-                    edges = [e1, e2]
+                    # the edge list in either order: the operation knows its registers, the list is "the edges relevant
+                    # for this operation"
+                    edges = [e1, e2] if rng.random() < 0.5 else [e2, e1]
                 op = cz.build_op(spec)
                 e = {"ev": "insert_at", "op": cz.op_content(op),
                      "edges": [[cz._nid(x[0]), cz._nid(x[1]), str(x[2])] for x in edges]}
